@@ -34,6 +34,22 @@
 (*          list / file input, positional strict -- is left to the CASE    *)
 (*          replay).  Stored as a table of the distinct observations       *)
 (*          (rb.o) and an index per name (rb.ix).                          *)
+(*   op     "assign" (the above), or -- the construction actions of        *)
+(*          Deb822ValueHist --                                             *)
+(*          "fresh": live object obj was replaced by an EMPTY paragraph of *)
+(*          its class (Cls() / Cls({}) / Cls([]) / Cls("") / empty file /  *)
+(*          blank lines / comments only / clear() ...): its paragraph is   *)
+(*          <<>>, nobody else changed, and every LATER assignment to it is *)
+(*          judged like any other;                                         *)
+(*          "build": live object obj was replaced by Cls(M), M a mapping   *)
+(*          (dict / Deb822Dict / items()-only object / a paragraph of ANY  *)
+(*          class, possibly one in which a key is multivalued and holds a  *)
+(*          raw string nobody validated) whose fields, read before the     *)
+(*          call, are e.m; no key of e.m is multivalued in cls.  Building  *)
+(*          from a mapping assigns every field: all values "accept" ->     *)
+(*          must be built, some value "reject" -> ValueError and obj is    *)
+(*          what it was; built -> field names of FoldM(e.m), read-backs    *)
+(*          as for an assignment.                                          *)
 (* The reference is HISTORY-FREE (Deb822ValueHist): an event is explained  *)
 (* by the class, the key and the value alone, whatever happened before --  *)
 (*   - acc agrees with Classify(v) where the statement decides ("accept" / *)
@@ -153,23 +169,46 @@ Checks(e) == LET cls == Classify(e.v)
                    <<"readback-ws-false", e.acc => \A n \in FNames : RBof(e, n) = OneParagraph(q)>>,
                    <<"readback-default", (e.acc /\ AllNoBlank(q)) => \A n \in TNames : RBof(e, n) = OneParagraph(q)>> >>
 ScratchChecks(e) == << <<"others-unchanged", e.items = ps>> >>
-AllChecks(e) == IF e.obj = 0 THEN ScratchChecks(e) ELSE Checks(e)
+\* construction
+RECURSIVE FoldM(_, _, _)
+FoldM(m, i, acc) == IF i > Len(m) THEN acc ELSE FoldM(m, i + 1, SetField(acc, m[i].k, m[i].v))
+FreshChecks(e) == << <<"fresh-empty", e.items[e.obj] = <<>> >>,
+                     <<"exception-type", e.acc /\ e.res = "ok">>,
+                     <<"others-unchanged", \A o \in 1..Len(ps) : o # e.obj => e.items[o] = ps[o]>> >>
+BuildChecks(e) == LET q == After(e) IN
+                  << <<"must-accept", (\A i \in 1..Len(e.m) : Classify(e.m[i].v) = "accept") => e.acc>>,
+                     <<"must-reject", (\E i \in 1..Len(e.m) : Classify(e.m[i].v) = "reject") => ~e.acc>>,
+                     <<"exception-type", e.res = IF e.acc THEN "ok" ELSE "ValueError">>,
+                     <<"reject-atomic", ~e.acc => e.items[e.obj] = ps[e.obj]>>,
+                     <<"keys-kept", e.acc => KeysOf(e.items[e.obj]) = KeysOf(FoldM(e.m, 1, <<>>))>>,
+                     <<"others-unchanged", \A o \in 1..Len(ps) : o # e.obj => e.items[o] = ps[o]>>,
+                     <<"readback-ws-false", (e.acc /\ q # <<>>) => \A n \in FNames : RBof(e, n) = OneParagraph(q)>>,
+                     <<"readback-default", (e.acc /\ q # <<>> /\ AllNoBlank(q)) => \A n \in TNames : RBof(e, n) = OneParagraph(q)>> >>
+AllChecks(e) == IF e.op = "fresh" THEN FreshChecks(e)
+                ELSE IF e.op = "build" THEN BuildChecks(e)
+                ELSE IF e.obj = 0 THEN ScratchChecks(e) ELSE Checks(e)
 Explained(e) == LET c == AllChecks(e) IN \A i \in 1..Len(c) : c[i][2]
 Reasons(e)   == LET c == AllChecks(e) IN SelectSeq([i \in 1..Len(c) |-> IF c[i][2] THEN "" ELSE c[i][1]], LAMBDA s : s # "")
 WellFormed(e) == /\ Len(e.items) = Len(ps)
-                 /\ \/ e.obj = 0 /\ IsMultiKeyC(e.cls, e.key)
-                    \/ e.obj \in 1..Len(ps) /\ e.cls = ClsOf(e.obj) /\ ~IsMultiKeyC(e.cls, e.key)
+                 /\ e.op \in {"assign", "fresh", "build"}
+                 /\ \/ e.op = "assign" /\ e.obj = 0 /\ IsMultiKeyC(e.cls, e.key)
+                    \/ e.op = "assign" /\ e.obj \in 1..Len(ps) /\ e.cls = ClsOf(e.obj) /\ ~IsMultiKeyC(e.cls, e.key)
+                    \/ e.op = "fresh" /\ e.obj \in 1..Len(ps) /\ e.cls = ClsOf(e.obj)
+                    \/ /\ e.op = "build" /\ e.obj \in 1..Len(ps) /\ e.cls = ClsOf(e.obj)
+                       /\ \A i \in 1..Len(e.m) : ~IsMultiKeyC(e.cls, e.m[i].k)
 
 \* the transcription of the reader, evaluated on the concrete text
-ModelAgrees(e) == (e.obj # 0 /\ e.acc) =>
+ModelAgrees(e) == (e.obj # 0 /\ e.acc /\ After(e) # <<>>) =>
                   LET o == ObsAll(After(e)) IN
-                  /\ e.items[e.obj] = SetField(ps[e.obj], e.key, e.v)
+                  /\ e.op = "assign" => e.items[e.obj] = SetField(ps[e.obj], e.key, e.v)
+                  /\ e.op = "build" => e.items[e.obj] = FoldM(e.m, 1, <<>>)
                   /\ RBof(e, "sF") = o["str"][FALSE]  /\ RBof(e, "sT") = o["str"][TRUE]
                   /\ RBof(e, "fF") = o["file"][FALSE] /\ RBof(e, "fT") = o["file"][TRUE]
                   /\ RBof(e, "bF") = o["file"][FALSE] /\ RBof(e, "bT") = o["file"][TRUE]
 \* the transcription of the validator against the statement layer, on the concrete value
 ValidatorAgrees(e) == /\ Accept(e.v) <=> ~DefectU(e.v)
-                      /\ e.obj # 0 => (e.acc <=> Accept(e.v))
+                      /\ (e.op = "assign" /\ e.obj # 0) => (e.acc <=> Accept(e.v))
+                      /\ e.op = "build" => (e.acc <=> \A i \in 1..Len(e.m) : Accept(e.m[i].v))
 
 TStep == /\ l <= Len(Tr.events)
          /\ LET e == Tr.events[l] IN
